@@ -149,10 +149,17 @@ def probe_case(rng, kind, ivcls):
         datasets.append({"label": f"ds{d + 1}", "group": "g1", "t": t, "g": list(gaxis), "layout": "mg", "megacomplex": ["m1"],
                          "dseed": int(rng.integers(2**31)), "id0": id0, "weight": None, "scale": None, "mc_scale": None})
         id0 += nt * len(gaxis)
+    target_missing = False
+    if nds == 2 and kind in ("zero", "only") and rng.integers(3) == 0:
+        # the FIRST dataset of the group does not have the constrained clp at all (label sets differ per dataset);
+        # the item must still act on the dataset that has it - at every axis point both share
+        mcs["m0"] = {"labels": ["a", "c"], "rates": ["k.1", "k.3"], "disp": "dsp.1" if idxdep else None}
+        datasets[0]["megacomplex"] = ["m0"]
+        target_missing = True
     case = {"datasets": datasets, "megacomplexes": mcs, "global_megacomplexes": {},
             "groups": {"g1": {"link_clp": linked, "residual_function": "variable_projection"}}, "parameters": params,
             "link_tolerance": 0.0, "link_method": "nearest", "constraints": [], "relations": [], "penalties": [], "weights": [],
-            "features": {"kind": kind, "ivcls": ivcls, "axis": axcls, "linked": linked, "idxdep": idxdep, "n_axis": len(gaxis)}}
+            "features": {"kind": kind, "ivcls": ivcls, "axis": axcls, "linked": linked, "idxdep": idxdep, "n_axis": len(gaxis), "target_missing_in_first": target_missing}}
     axis_for_iv = gaxis
     if kind == "weight_model":
         axis_for_iv = datasets[0]["t"]
@@ -220,6 +227,8 @@ def observe(case, kind):
         rd = result.data[ds["label"]]
         g = np.asarray(ds["g"], dtype=float)
         if kind in ("zero", "only"):
+            if "b" not in [str(x) for x in rd["clp"].coords["clp_label"].values]:
+                continue  # this dataset does not have the constrained clp
             v = rd["clp"].sel(clp_label="b").values
             z = {i for i in range(len(g)) if v[i] == 0.0}
             sets[ds["label"]] = z if kind == "zero" else set(range(len(g))) - z
@@ -288,6 +297,8 @@ def judge_sets(case, kind, sets, rec, jc):
             cols, rows = sets[label] if isinstance(sets[label], tuple) else (set(), set())
             axes = [("global", ds["g"], cols, iv), ("model", ds["t"], rows, None)]
         else:
+            if label not in sets:
+                continue
             axes = [("global", ds["g"], sets[label], iv)]
         for name, axis, Sset, ivx in axes:
             inside, nearest = IV.inside_set(axis, ivx), IV.nearest_set(axis, ivx)
@@ -346,6 +357,8 @@ def run_monotone(case, rec, rng):
         return
     rec.count("monotonicity_pairs")
     for ds in case["datasets"]:
+        if ds["label"] not in s1 or ds["label"] not in s2:
+            continue
         a, b = s1[ds["label"]], s2[ds["label"]]
         if isinstance(a, tuple):
             a, b = (a[0], b[0]) if kind == "weight_global" else (a[1], b[1])
@@ -373,6 +386,8 @@ def run_complement(case, rec):
     rec.count("complement_pairs")
     for ds in case["datasets"]:
         n = len(ds["g"])
+        if ds["label"] not in sz or ds["label"] not in so:
+            continue
         if sz[ds["label"]] | so[ds["label"]] != set(range(n)) or sz[ds["label"]] & so[ds["label"]]:
             rec.violation("only-not-complement-of-zero", jc, f"interval {jc['iv']}: zero removes {sorted(sz[ds['label']])}, only removes {sorted(so[ds['label']])} of {n} points")
 
